@@ -320,9 +320,9 @@ func eqClassKey(h *HandlerResult, r EqReport) string {
 // (handler, equation, scope, group): holds iff it holds on every path.
 func emitIdentityObligations(c *Ctx, p *Program, h *HandlerResult, rule string, reports []EqReport) (paths int) {
 	type agg struct {
-		n    int
-		bad  *EqReport
-		any  *EqReport
+		n   int
+		bad *EqReport
+		any *EqReport
 	}
 	m := map[string]*agg{}
 	var order []string
